@@ -66,6 +66,19 @@ def opMember (r : Rel) (a : Int) (d : Fl) : Option Bool := (cmpD a d).map r.hold
 /-- free operators `floating OP Integer` as written in gmp++_int_compare.C: `n OP' l` -/
 def opFree (r : Rel) (d : Fl) (a : Int) : Option Bool := opMember r.swap a d
 
+/-- `Integer(double)`, `operator=(double)`, `ZRing<Integer>::init(x, double)`: `mpz_set_d` — the value truncated toward zero, exactly,
+    whatever its size (no detour through a machine word); infinities and NaN are outside GMP's contract -/
+def ofFl : Fl → Option Int
+  | .fin m e => some (if 0 ≤ e then m * 2 ^ e.toNat else Int.tdiv m (2 ^ (-e).toNat))
+  | _ => none
+
+/-- `operator double()`: `mpz_get_d` — the 53 most significant bits of |a| (truncation toward zero): (a < 0, mantissa, exponent) with
+    |a| = mantissa·2^exponent + dropped low bits; exact when |a| < 2^53 -/
+def toDyTrunc (a : Int) : Bool × Nat × Nat :=
+  let n := a.natAbs
+  let sh := (if n = 0 then 0 else n.log2 + 1) - 53
+  (decide (a < 0), n / 2 ^ sh, sh)
+
 /-- `fact(l)`: `mpz_fac_ui` -/
 def fact : Nat → Nat
   | 0 => 1
